@@ -20,6 +20,7 @@ import (
 func main() {
 	engine := flag.String("engine", "both", "v1|v2|both")
 	maxprocs := flag.Int("gomaxprocs", 0, "force GOMAXPROCS of every generated case (0 = generated)")
+	level := flag.String("level", "", "service = every generated case runs the real lifecycle services")
 	family := flag.String("family", "", "masks = run the exhaustive filter-mask enumeration instead of random cases")
 	corpus := flag.String("corpus", "", "directory of *.jsonl regression inputs that are run before the generated cases")
 	child := flag.Bool("child", false, "internal: run cases from stdin (the engines run in a child process)")
@@ -110,7 +111,16 @@ func main() {
 				// a fixed 1 in 8 of the cases of each engine: cancel in the middle of a fan-out
 				c = enginex.GenDirected(r, eng)
 			}
-			if i%16 == 15 {
+			if i%16 == 10 || i%16 == 11 {
+				// 1 in 8 of the cases of each engine: the real lifecycle services (plugin-level acks)
+				c = enginex.GenService(r, eng)
+				if eng == "v1" && (i/16+o.Shard)%2 == 0 {
+					c = enginex.GenServiceCut(r)
+				}
+			}
+			if *level == "service" {
+				c = enginex.GenService(r, eng)
+			} else if i%16 == 15 {
 				// 1 in 8 of the v2 cases: large batches through filter -> transform
 				c = enginex.GenFilterChain(r)
 			}
